@@ -148,6 +148,20 @@ def entity_table():
         f1 = cb.Face([[0, 0, 0], [1, 0, 0], [1, 1, 0], [0, 1, 0]], [cb.OnCurve(curve, n_points=5), None, None, None])
         return cb.Extrude(f1, [0.1, 0.0, 1.0])
 
+    def loft_shared_angle():
+        # the user re-uses ONE Angle object for the four side edges (and one Origin object on two face edges)
+        f1 = cb.Face([[1.0, 0.2, 0.0], [2.0, 0.2, 0.0], [2.0, 1.2, 0.1], [1.0, 1.0, 0.0]])
+        f2 = f1.copy().rotate(0.9, [0.1, 1.0, 0.0], [0.2, 0.0, 0.1])
+        loft = cb.Loft(f1, f2)
+        shared = cb.Angle(0.9, [0.1, 1.0, 0.0])
+        for i in range(4):
+            loft.add_side_edge(i, shared)
+        return loft
+
+    def face_shared_origin():
+        o = cb.Origin([0.5, 0.5, 0.0])
+        return cb.Face([[0, 0, 0], [1, 0, 0], [1, 1, 0], [0, 1, 0]], [o, None, o, None])
+
     ent = {
         "Point": ("points", lambda: cb.construct.point.Point([0.3, -0.4, 1.2]) if hasattr(cb, "construct") else None),
         "Face": ("face", _face_with_edges),
@@ -162,6 +176,8 @@ def entity_table():
         "Revolve": ("additive", lambda: cb.Revolve(base_face(), 0.9, [0.1, 1.0, 0.0], [0.2, 0.0, 0.1])),
         "Wedge": ("additive", lambda: cb.Wedge(cb.Face([[0, 0.5, 0], [1, 0.5, 0], [1, 1.2, 0], [0, 1.0, 0]]), 0.2)),
         "OnCurveLoft": ("additive", oncurve_loft),
+        "LoftSharedAngle": ("additive", loft_shared_angle),
+        "FaceSharedOrigin": ("face", face_shared_origin),
         "Box": ("additive", lambda: cb.Box([0.1, 0.2, 0.3], [1.1, 0.9, 1.5])),
         "Grid": ("sketch", lambda: cb.Grid([0, 0, 0], [2, 1, 0], 2, 1)),
         "OneCoreDisk": ("sketch", lambda: cb.OneCoreDisk([0.2, 0.1, 0.0], [1.2, 0.1, 0.0], [0, 0, 1])),
@@ -183,7 +199,7 @@ def entity_table():
     return ent
 
 
-CHEAP = ["Point", "Face", "FaceAngle", "DiscreteCurve", "LinearInterpolatedCurve", "SplineInterpolatedCurve", "LineCurve", "CircleCurve", "LoftEdges", "Extrude", "Revolve", "Wedge", "OnCurveLoft", "Box", "Grid", "OneCoreDisk"]
+CHEAP = ["Point", "Face", "FaceAngle", "LoftSharedAngle", "FaceSharedOrigin", "DiscreteCurve", "LinearInterpolatedCurve", "SplineInterpolatedCurve", "LineCurve", "CircleCurve", "LoftEdges", "Extrude", "Revolve", "Wedge", "OnCurveLoft", "Box", "Grid", "OneCoreDisk"]
 
 
 def cases(tier, seed):
